@@ -24,6 +24,8 @@ func Run(tt *testing.T) func(t *sim.Tape, profile, tier string) *sim.RunResult {
 				kind = runC16(s, tier)
 			case "C17":
 				kind = runC17(s, tier)
+			case "C10":
+				kind = runHostile(s)
 			default:
 				kind = runC19(s, tier)
 			}
@@ -35,6 +37,9 @@ func Run(tt *testing.T) func(t *sim.Tape, profile, tier string) *sim.RunResult {
 			res.Stats, res.Violations = s.stats, s.viols
 			res.Stats.Inc("session." + kind)
 			res.Nontrivial = s.stats["net.deliveries"] > 0 || s.stats["merkle.ops"] > 0
+			if profile == "C10" {
+				res.Nontrivial = s.stats["hostile.decoded"] > 0
+			}
 			if profile == "C17" {
 				res.Nontrivial = s.stats["c17.mined"] > 0 || s.stats["c17.v1-validated"] > 0
 			}
